@@ -42,6 +42,8 @@ class ConnectResponse(KNXIPBodyResponse):
     def from_knx(self, raw: bytes) -> int:
         """Parse/deserialize from KNX/IP raw data."""
 
+        if len(raw) < 2:
+            raise CouldNotParseKNXIP("ConnectResponse has wrong length")
         self.communication_channel = raw[0]
         self.status_code = ErrorCode(raw[1])
         pos = 2
@@ -102,6 +104,8 @@ class ConnectResponseData:
 
     def from_knx(self, raw: bytes) -> int:
         """Parse/deserialize from KNX/IP raw data."""
+        if len(raw) < ConnectResponseData.CRD_LENGTH:
+            raise CouldNotParseKNXIP("CRD has wrong length")
         crd_length = raw[0]
         if len(raw) < crd_length:
             raise CouldNotParseKNXIP("CRD has wrong length")
